@@ -1,3 +1,4 @@
 pub mod common;
 pub mod engine;
+pub mod f2;
 pub mod props;
